@@ -237,7 +237,7 @@ def stage_probe(ctx, stats):
     try:
         for it in range(n):
             cwd = rng.choice([None, tmp, '/'])
-            envvals = {'VERIF_A': ''.join(rng.choice('ab é=') for _ in range(rng.randrange(0, 5))), 'VERIF_B': 'x'}
+            envvals = {'VPROBE_A': ''.join(rng.choice('ab é=') for _ in range(rng.randrange(0, 5))), 'VPROBE_B': 'x'}
             env = None if rng.random() < 0.3 else dict(os.environ, **envvals)
             dims = rng.choice([None, (24, 80), (1, 1), (50, 132), (7, 200)])
             echo = rng.random() < 0.5
@@ -279,7 +279,7 @@ def stage_probe(ctx, stats):
                     problems.append('cwd %r != %r' % (info['cwd'], want_cwd))
                 if env is not None and info['env'] != envvals:
                     problems.append('env %r != %r' % (info['env'], envvals))
-                if env is None and info['env'] != {k: v for k, v in os.environ.items() if k.startswith('VERIF_')}:
+                if env is None and info['env'] != {k: v for k, v in os.environ.items() if k.startswith('VPROBE_')}:
                     problems.append('environment not inherited')
                 if mode != 'popen':
                     if info.get('winsize') != list(dims or (24, 80)):
